@@ -29,6 +29,10 @@ def pivot():
     S.append(EnumSpec("Langs", [U("French", to_string="Fran\u00e7ais"), U("Spanish", to_string="Espa\u00f1ol"), U("De", serialize=["de", "Deutsch"]),
                                 U("Mu", serialize=["\u00b5m"], fields=[Field("u8")])],
                       note="the longest spelling in bytes is non-ASCII (char count < byte length)"))
+    S.append(EnumSpec("EmptyOnly", [U("Dimensionless", serialize=[""]), U("Metre", serialize=["m"]), U("Both", serialize=[" ", "both"], fields=[Field("u8")])],
+                      note="a variant whose ONLY spelling is the empty string; a one-space spelling next to a longer one"))
+    S.append(EnumSpec("NumSplit", [U("Utf8"), U("Utf_8"), U("X86"), U("X_86", fields=[Field("u8")])], serialize_all="snake_case",
+                      note="identifiers that differ only by an underscore between a letter and a digit (their snake names must stay distinct)"))
     S.append(EnumSpec("CaseOnly", [U("Mb", serialize=["mb"], to_string="MB"), U("Kb", serialize=["kb", "KB", "Kb"]), U("Plain")],
                       note="serialize and to_string of one variant differ only in letter case (case-sensitive enum)"))
     S.append(EnumSpec("Esc", [U("Braces", to_string="${{name}}", fields=[Field("u32", name="id")], named=True), U("Tb", serialize=["{{x}}", "x"], fields=[Field("u8")]),
